@@ -14,7 +14,7 @@ import (
 
 var c18Kinds = []string{"encdec", "encdec.unknown", "hash", "hash.unknown", "first", "last", "elementat", "elementat.oob", "elementat.negative", "array.null", "array.empty",
 	"unwind", "array", "concat", "concat.null", "if", "lower", "upper", "changetype.string", "changetype.double", "changetype.integer", "changetype.array", "changetype.unknown",
-	"daterange", "constant", "constant.unknown", "arity"}
+	"daterange", "daterange.null", "constant", "constant.unknown", "constant.nested", "arity"}
 
 func init() {
 	fw.Register(&fw.Prop{
@@ -110,6 +110,7 @@ func c18Run(c *fw.Case) {
 	wantErr := false
 	var opts []genql.QueryOption
 	extraCheck := func(got any) string { return "" }
+	nestedSQL := ""
 	str := func(s string) string { return gen.SQLString(s, 0) }
 	switch kind {
 	case "encdec":
@@ -325,6 +326,62 @@ func c18Run(c *fw.Case) {
 		f := fmt.Sprintf("20%02d-%02d-%02d", c.Intn(30), 1+c.Intn(12), 1+c.Intn(28))
 		t := fmt.Sprintf("20%02d-%02d-%02d", 30+c.Intn(30), 1+c.Intn(12), 1+c.Intn(28))
 		call, want = fmt.Sprintf("DATERANGE(%s, %s)", arg(f), arg(t)), []any{f, t}
+	case "daterange.null":
+		// an open-ended range: the bound that is there stays in its place
+		d := fmt.Sprintf("20%02d-%02d-%02d", c.Intn(60), 1+c.Intn(12), 1+c.Intn(28))
+		pos := c.Intn(2)
+		bounds := []any{nil, nil}
+		bounds[pos] = d
+		call, want = fmt.Sprintf("DATERANGE(%s, %s)", arg(bounds[0]), arg(bounds[1])), "<hash>"
+		if c.Chance(0.3) {
+			// a missing key is NULL like any other
+			parts := []string{"nokey", "nokey"}
+			parts[pos] = arg(d)
+			call = "DATERANGE(" + parts[0] + ", " + parts[1] + ")"
+		}
+		extraCheck = func(got any) string {
+			ga, ok := got.([]any)
+			if gs, isStrings := got.([]string); isStrings {
+				ga, ok = make([]any, len(gs)), true
+				for i, x := range gs {
+					ga[i] = x
+				}
+			}
+			if !ok || len(ga) != 2 {
+				return fmt.Sprintf("DATERANGE(f, t) is [f, t]: expected two elements, got %s", short(val.Canon(got), 100))
+			}
+			if !val.Equal(ga[pos], d) {
+				return fmt.Sprintf("the bound %q is not at index %d: %s", d, pos, short(val.Canon(got), 100))
+			}
+			if other := ga[1-pos]; other != nil && other != "" {
+				return fmt.Sprintf("the NULL bound came back as %s", short(val.Canon(other), 60))
+			}
+			return ""
+		}
+	case "constant.nested":
+		// the configured constants reach every nested query, with whatever other options
+		consts := map[string]any{"k1": c18Scalar(c, true), "k2": float64(c.Intn(9))}
+		opts = append(opts, genql.WithConstants(consts))
+		if c.Chance(0.6) {
+			opts = append(opts, genql.CompletedCallback(func() {}))
+		}
+		if c.Chance(0.3) {
+			opts = append(opts, genql.UnReportedErrors(func(error) {}))
+		}
+		if c.Chance(0.3) {
+			opts = append(opts, genql.WithVars(map[string]any{"x": 1.0}))
+		}
+		key := gen.Pick(c.R, []string{"k1", "k2"})
+		want = consts[key]
+		nestedSQL = gen.Pick(c.R, []string{
+			"SELECT q.v FROM (SELECT CONSTANT('%K') AS v FROM t) q",
+			"WITH q AS (SELECT CONSTANT('%K') AS v FROM t) SELECT v FROM q",
+			"SELECT CONSTANT('%K') AS v FROM t UNION SELECT CONSTANT('%K') AS v FROM t",
+			"SELECT (SELECT CONSTANT('%K') AS c FROM dual) AS o FROM t",
+			"SELECT CONSTANT('%K') AS v FROM t WHERE EXISTS (SELECT 1 AS one FROM dual WHERE CONSTANT('k2') >= 0)",
+		})
+		nestedSQL = strings.ReplaceAll(nestedSQL, "%K", key)
+		call = "CONSTANT('" + key + "')"
 	case "constant", "constant.unknown":
 		consts := map[string]any{"k1": c18Scalar(c, true), "k 2": c18Array(c, 1), "Key": float64(c.Intn(9))}
 		opts = append(opts, genql.WithConstants(consts))
@@ -366,6 +423,9 @@ func c18Run(c *fw.Case) {
 	}
 	doc := map[string]any{"t": []any{row}}
 	sql := "SELECT " + call + " AS v FROM t"
+	if nestedSQL != "" {
+		sql = nestedSQL
+	}
 	o := Run(val.CopyMap(doc), sql, opts...)
 	c.Feature(kind)
 	c.Sample(map[string]any{"sql": sql, "row": val.Show(row), "expected": val.Show(want), "expected_error": wantErr})
@@ -391,6 +451,9 @@ func c18Run(c *fw.Case) {
 		return
 	}
 	got := o.Rows[0].(map[string]any)["v"]
+	if m, ok := o.Rows[0].(map[string]any)["o"].(map[string]any); ok && nestedSQL != "" {
+		got = m["c"]
+	}
 	if msg := extraCheck(got); msg != "" {
 		c.Violate("contract", fmt.Sprintf("%s: %s", call, msg), det)
 		return
